@@ -330,7 +330,7 @@ def multi_case(draw):
         w_max = (K + 0.5) * w0
     else:
         w_max = (K + draw(st.sampled_from([0.25, 0.75, 0.9]))) * w0
-    times = draw(st.lists(st.floats(0, 3, allow_nan=False), min_size=8, max_size=8))
+    times = draw(st.lists(st.floats(-3, 3, allow_nan=False), min_size=8, max_size=8))
     return {'circuit': spec, 'w_max': w_max, 'times': times, 'two_sided': draw(st.sampled_from([False, False, False, False, True]))}
 
 
